@@ -333,11 +333,7 @@ Definition nth_paragraph (r i : nat) : M (option hnd) :=
 
 (* fn insert_empty_paragraph(&mut self, index: Option<usize>) -> Paragraph; the result handle is
    left in register dst *)
-Definition insert_empty_paragraph_m (r : nat) (index : option nat) (dst : nat) : M unit :=
-  p <- paragraph_new_m [] ;;
-  set_reg dst (Some p) ;;
-  (match index with None => ensure_trailing_newline r | Some _ => ret tt end) ;;
-  h <- get_reg r ;; cs <- children_of h ;;
+Definition insert_block (r : nat) (index : option nat) (dst : nat) (cs : list tree) : M unit :=
   scoped (
     rp <- (ph <- get_reg dst ;; push_tmp ph) ;;
     (* to_insert; paragraph.0.clone() is the same node as [dst] *)
@@ -346,6 +342,12 @@ Definition insert_empty_paragraph_m (r : nat) (index : option nat) (dst : nat) :
     | Some i => m_splice r i i (rp :: blank)
     | None => m_splice r (count_nodes cs) (count_nodes cs) (blank ++ [rp])
     end).
+Definition insert_empty_paragraph_m (r : nat) (index : option nat) (dst : nat) : M unit :=
+  p <- paragraph_new_m [] ;;
+  set_reg dst (Some p) ;;
+  (match index with None => ensure_trailing_newline r | Some _ => ret tt end) ;;
+  h <- get_reg r ;; cs <- children_of h ;;
+  insert_block r index dst cs.
 Definition add_paragraph_m (r dst : nat) : M unit := insert_empty_paragraph_m r None dst.
 Definition insert_paragraph_m (r index dst : nat) : M unit :=
   h <- get_reg r ;; cs <- children_of h ;;
